@@ -12,7 +12,8 @@ EXPLANATION = (
     "and the attribute merge copy id / epoch / scene / custom id / length / last observed and predicted box from the "
     "documented sources; (R01.3) the id counter is only ever incremented by one, a fresh id is taken under the "
     "same write access as the increment, and every track added to the store carries an id drawn from that counter; "
-    "(R01.4) each record is read back from the store under the id chosen in that iteration (new id or winner).")
+    "(R01.4) each record is read back from the store under the id chosen in that iteration (new id or winner). "
+    "(R01.8) a track is awarded to at most one detection per call: the best-fit claim set records awarded tracks, the positional assignment is one-to-one; (R01.7) who-may-write rows for histories and track length.")
 NOT_DECIDED = ["that two detections never share a track within one call (follows from the assignment algorithms: "
                "C02 R02.2 / C17 R17.4 decide the structural part)", "concrete boxes and epochs for concrete inputs"]
 ASSUMPTIONS = ["std iterators preserve order as documented", "rustc nightly MIR construction", "panics out of scope"]
@@ -49,6 +50,11 @@ def run(ctx):
     ctx.rule('R01.6', 'the histories whose last entries are echoed keep the newest entries (push_back / pop_front)')
     ctx.floor('R01.6', metriclib.rule_histories(ctx, 'R01.6'), 19)
     shared_counter(ctx, 'R01.3')
+    import votinglib as V
+    ctx.rule('R01.8', 'a track is awarded to at most one detection per call (appearance claims; one-to-one assignment)')
+    n = V.rule_bestfit_claims(ctx, 'R01.8')
+    n += V.rule_hungarian(ctx, 'R01.8')
+    ctx.floor('R01.8', n, 3)
     r1(ctx)
     r2(ctx)
     r3(ctx)
